@@ -2,5 +2,6 @@ SPECIFICATION Spec
 CONSTANTS
   MaxTests = 4
   MaxOps = 2
+  Family = "all"
 INVARIANTS CarriesOver FileIsSession Emit
 CHECK_DEADLOCK FALSE
